@@ -748,7 +748,7 @@ pub async fn run_huge(uniq: u64) -> Result<HugeObs, String> {
         }
         Ok(Err(_)) => return Err("harness: task cancelled".into()),
     };
-    let cached = client.cache().get(&format!("api/ribbit/{}", class.endpoint())).ok().map(|o| o.is_some());
+    let cached = cache_key(class.endpoint()).and_then(|k| client.cache().get(&k).ok().map(|o| o.is_some()));
     Ok(HugeObs { rows_sent, bytes_sent, result, panicked, cached })
 }
 
@@ -794,10 +794,17 @@ pub fn sync_context_case(ctx: &Ctx, rt: &tokio::runtime::Runtime, uniq: u64) {
     let ep1 = EpClass::Cdns.endpoint();
     let stored = bpsv_text(EpClass::Cdns, Slot::Https, uniq, 7, Shape::Plain, 2);
     let Some(want) = ref_http(stored.as_bytes()) else { return ctx.inconclusive("harness: document does not parse") };
-    if let Err(e) = client.cache().store_with_ttl(&format!("api/ribbit/{ep1}"), stored.as_bytes(), Duration::from_secs(600)) {
+    let Some(key1) = cache_key(ep1) else {
+        // the client keeps its answers under another key than the one this sub-check would store under
+        ctx.obs("cache.sync_context.skipped(cache key format not recognised)", 1);
+        drop(client);
+        rt.block_on(async move { drop(rig) });
+        return;
+    };
+    if let Err(e) = client.cache().store_with_ttl(&key1, stored.as_bytes(), Duration::from_secs(600)) {
         return ctx.inconclusive(&format!("harness: store from sync context failed: {e}"));
     }
-    let readback = client.cache().get(&format!("api/ribbit/{ep1}")).ok().flatten();
+    let readback = client.cache().get(&key1).ok().flatten();
     let before = rig.log.len();
     let r = rt.block_on(do_query(&client, ep1));
     let n = rig.log.len() - before;
